@@ -190,6 +190,7 @@ func cmdCheck(args []string) int {
 	}
 	sort.Strings(keys)
 	results := e.generate(keys)
+	silent := map[*FuncResult][]*Obligation{}
 	// filter obligations to those that serve this property
 	nobl := 0
 	for _, r := range results {
@@ -201,9 +202,15 @@ func cmdCheck(args []string) int {
 		framesOnly := inList(pc.FramesOnly, r.Fn)
 		for _, o := range r.Obls {
 			if taggedOnly && !o.Cover && !inList(o.Tags, id) {
+				if len(o.Tags) > 0 && o.assumeIdx >= 0 && r.Query != nil && !o.Known {
+					silent[r] = append(silent[r], o)
+				}
 				continue
 			}
 			if framesOnly && !o.Cover && !inList(o.Tags, id) && !strings.HasPrefix(o.Name, "frame/") && !strings.Contains(o.Name, "/frame-") {
+				if len(o.Tags) > 0 && o.assumeIdx >= 0 && r.Query != nil && !o.Known {
+					silent[r] = append(silent[r], o)
+				}
 				continue
 			}
 			if !hasTag(o, id) {
@@ -224,6 +231,10 @@ func cmdCheck(args []string) int {
 							r.Query.skip = map[int]bool{}
 						}
 						r.Query.skip[o.assumeIdx] = true
+					} else if len(o.Tags) > 0 && o.assumeIdx >= 0 && r.Query != nil && !o.Cover && !o.Known {
+						// decided silently: claimed by the checks of the properties it is tagged with, but if it does
+						// not hold on this tree its fact must not support the clauses claimed here
+						silent[r] = append(silent[r], o)
 					}
 					continue
 				}
@@ -258,6 +269,118 @@ func cmdCheck(args []string) int {
 	if err := e.solveAll(results, timeout, 16, filepath.Join(outDir, "vc")); err != nil {
 		fmt.Fprintln(os.Stderr, "gvc:", err)
 		return 2
+	}
+	// Unmasking pass: an obligation that was not discharged must not be leaned on by the obligations after it
+	// (assert-then-assume would let a false clause make the rest of the function vacuously provable). The facts
+	// of the failed obligations are dropped and the discharged obligations generated after them are decided
+	// again, until nothing new fails. Recorded known findings keep their fact (the check would otherwise raise
+	// their consequences on the unchanged tree). Costs nothing when everything is discharged.
+	var unclaimedFailed []string
+	knownWhole := func(fn, name string) bool {
+		for i := range known {
+			k := &known[i]
+			if k.Status == "known" && k.When == "" && k.Fn == fn && (k.Obligation == name || normObligationName(k.Obligation) == normObligationName(name)) {
+				return true
+			}
+		}
+		return false
+	}
+	silentMin := map[*FuncResult]int{}
+	if os.Getenv("GVC_NO_SILENT") == "" {
+		var sub []*FuncResult
+		var owner []*FuncResult
+		for _, r := range results {
+			if len(silent[r]) > 0 && r.Err == nil {
+				sub = append(sub, &FuncResult{Fn: r.Fn, Query: r.Query, Obls: silent[r]})
+				owner = append(owner, r)
+			}
+		}
+		if len(sub) > 0 {
+			if err := e.solveAll(sub, timeout, 16, ""); err != nil {
+				fmt.Fprintln(os.Stderr, "gvc:", err)
+				return 2
+			}
+			for k, sr := range sub {
+				r := owner[k]
+				for j, o := range sr.Obls {
+					if sr.Verdicts[j].Answer == "unsat" || knownWhole(r.Fn, o.Name) {
+						continue
+					}
+					if r.Query.skip == nil {
+						r.Query.skip = map[int]bool{}
+					}
+					r.Query.skip[o.assumeIdx] = true
+					if m, ok := silentMin[r]; !ok || o.assumeIdx < m {
+						silentMin[r] = o.assumeIdx
+					}
+					unclaimedFailed = append(unclaimedFailed, shortCallee(r.Fn)+" :: "+o.Name)
+				}
+			}
+		}
+	}
+	for round := 0; round < 4; round++ {
+		var sub []*FuncResult
+		var back [][]int
+		for _, r := range results {
+			if r.Err != nil || r.Query == nil {
+				continue
+			}
+			minIdx := -1
+			if m, ok := silentMin[r]; ok && round == 0 {
+				minIdx = m
+			}
+			for i, o := range r.Obls {
+				v := r.Verdicts[i]
+				if o.Cover || o.Known || v.Answer == "unsat" || o.assumeIdx < 0 || knownWhole(r.Fn, o.Name) {
+					continue
+				}
+				if r.Query.skip == nil {
+					r.Query.skip = map[int]bool{}
+				}
+				if !r.Query.skip[o.assumeIdx] {
+					r.Query.skip[o.assumeIdx] = true
+					if minIdx < 0 || o.assumeIdx < minIdx {
+						minIdx = o.assumeIdx
+					}
+				}
+			}
+			if minIdx < 0 {
+				continue
+			}
+			sr := &FuncResult{Fn: r.Fn, Query: r.Query}
+			var idx []int
+			for i, o := range r.Obls {
+				if !o.Cover && !o.Known && r.Verdicts[i].Answer == "unsat" && o.n > minIdx {
+					sr.Obls = append(sr.Obls, o)
+					idx = append(idx, i)
+				}
+			}
+			if len(idx) > 0 {
+				sub = append(sub, sr)
+				back = append(back, idx)
+			}
+		}
+		if len(sub) == 0 {
+			break
+		}
+		if err := e.solveAll(sub, timeout, 16, filepath.Join(outDir, "vc")); err != nil {
+			fmt.Fprintln(os.Stderr, "gvc:", err)
+			return 2
+		}
+		for k, sr := range sub {
+			for _, r := range results {
+				if r.Query == sr.Query && r.Fn == sr.Fn {
+					for j, i := range back[k] {
+						if sr.Verdicts[j].Answer != "unsat" {
+							r.Verdicts[i] = sr.Verdicts[j]
+						}
+					}
+				}
+			}
+		}
+	}
+	for _, u := range unclaimedFailed {
+		fmt.Printf("NOTE: %s is claimed by the check of another property and is not discharged on this tree: its fact was not relied upon here\n", u)
 	}
 	// ledger
 	ledgerPath := filepath.Join(vr, "ledger", id+".json")
